@@ -9,8 +9,14 @@ use serde::{Deserialize, Serialize};
 use std::collections::BTreeMap;
 
 pub mod common;
+pub mod event;
+pub mod mpmc;
+pub mod mutex;
+pub mod oneshot;
 pub mod oracle;
 pub mod semaphore;
+pub mod state;
+pub mod timer;
 
 pub trait World: Sized {
     fn new(cfg: &Cfg, env: &mut Env) -> Self;
@@ -37,7 +43,7 @@ pub struct WorldDef {
 }
 
 pub fn worlds() -> Vec<&'static WorldDef> {
-    vec![&semaphore::DEF]
+    vec![&semaphore::DEF, &mutex::DEF, &event::DEF, &timer::DEF, &mpmc::DEF, &oneshot::DEF, &state::DEF]
 }
 
 pub fn world_by_name(name: &str) -> Option<&'static WorldDef> {
